@@ -120,6 +120,7 @@ def rule_state_layout(ctx):
     c13.rule_runnable_exists(ctx)
     c13.rule_cancel_refcount(ctx)
     c13.rule_state_updates(ctx)
+    c13.rule_waker_vtable(ctx)
 
 
 RULES.append(("C05.g", "layout of the packed task state word; runnable_exists predicate", rule_state_layout))
